@@ -1900,3 +1900,280 @@ func oracleC19(r *report, g *G, n int, single string) {
 	})
 	r.sample(map[string]string{"case": "SR 100d00044d5154540504000000000000", "check": "String and Dump return"})
 }
+
+// ---------------------------------------------------------------- C02 / C03 / C09
+// These use the specification model (Spec/Mqtt5.v, extracted to OCaml):
+// modelrun judges frames written by the library (C02) and generates the
+// valid-frame language (C03) and must-reject frames (C09).
+
+func init() {
+	oracles["C02"] = oracleC02
+	oracles["C03"] = oracleC03
+	oracles["C09"] = oracleC09
+}
+
+func modelrunPath() string {
+	if p := os.Getenv("VERIF_MODELRUN"); p != "" {
+		return p
+	}
+	return "build/extract/modelrun"
+}
+
+func runModel(args []string, stdin string) ([]string, error) {
+	cmd := exec.Command("bash", "-c", "ulimit -s unlimited 2>/dev/null; exec \"$0\" \"$@\"", modelrunPath())
+	cmd.Args = append(cmd.Args, args...)
+	cmd.Stdin = strings.NewReader(stdin)
+	out, err := cmd.Output()
+	if err != nil {
+		return nil, err
+	}
+	return strings.Split(strings.TrimRight(string(out), "\n"), "\n"), nil
+}
+
+// mqttWellFormed: the C02 side conditions, from the call list.
+func mqttWellFormed(k int, p mq.Packet) bool {
+	switch p := p.(type) {
+	case *mq.Connect:
+		return p.ProtocolName() == "MQTT" && p.ProtocolVersion() == 5
+	case *mq.Publish:
+		q := p.QoS()
+		return (p.TopicName() != "" || p.TopicAlias() != 0) && (q == 0 || p.PacketID() != 0) && q < 3
+	case *mq.Subscribe:
+		return len(p.Filters()) > 0
+	case *mq.Unsubscribe:
+		return len(p.Filters()) > 0
+	case *mq.SubAck:
+		return len(p.ReasonCodes()) > 0
+	case *mq.UnsubAck:
+		return len(p.ReasonCodes()) > 0
+	}
+	return true
+}
+
+func oracleC02(r *report, g *G, n int, single string) {
+	type job struct {
+		c    string
+		line string
+	}
+	var jobs []job
+	add := func(k int, cs []string) {
+		c := "H " + strconv.Itoa(k) + sp(cs)
+		var p mq.Packet
+		ok := func() (ok bool) {
+			defer func() {
+				if e := recover(); e != nil {
+					r.fail("conformance-panic", c, fmt.Sprint(e))
+				}
+			}()
+			p = build(k, cs)
+			return true
+		}()
+		if !ok || !mqttWellFormed(k, p) {
+			return
+		}
+		snap := snapshot(p)
+		if snap == "" {
+			snap = "."
+		}
+		f := frameOf(p)
+		if len(f) > 300000 {
+			return
+		}
+		jobs = append(jobs, job{c, "J " + hexs(f) + " " + snap})
+	}
+	if single != "" {
+		f := splitWS(single)
+		if len(f) >= 2 && (f[0] == "H" || f[0] == "W" || f[0] == "S") {
+			k, _ := strconv.Atoi(f[1])
+			cs := f[2:]
+			if f[0] == "W" {
+				cs = f[3:]
+			}
+			if k != 0 {
+				add(k, cs)
+			}
+		}
+	} else {
+		for _, l := range corpusLines("hist") {
+			f := splitWS(l)
+			k, _ := strconv.Atoi(f[1])
+			add(k, f[2:])
+		}
+		for _, k := range allKinds {
+			add(k, nil)
+		}
+		for i := 0; i < n; i++ {
+			k := g.kind()
+			g.big = g.chance(4)
+			cs := g.domainCalls(k)
+			// give list-carrying types their mandatory element most of the time
+			switch k {
+			case 8:
+				if g.chance(90) {
+					cs = append(cs, "AddFilter:612f23:"+strconv.Itoa(g.pick(3)))
+				}
+			case 10:
+				if g.chance(90) {
+					cs = append(cs, "AddUnsubFilter:612f62")
+				}
+			case 9, 11:
+				if g.chance(90) {
+					cs = append(cs, "AddReasonCode:"+strconv.Itoa(g.pick(3)))
+				}
+			case 3:
+				if g.chance(90) {
+					cs = append(cs, "SetTopicName:742f31", "SetPacketID:"+strconv.Itoa(1+g.pick(65535)))
+				}
+			}
+			add(k, domainFix(k, cs))
+		}
+	}
+	if len(jobs) == 0 {
+		return
+	}
+	var in strings.Builder
+	for _, j := range jobs {
+		in.WriteString(j.line)
+		in.WriteByte('\n')
+	}
+	out, err := runModel(nil, in.String())
+	if err != nil || len(out) != len(jobs) {
+		r.fail("spec-judge-crashed", "modelrun", fmt.Sprintf("%v (%d of %d lines)", err, len(out), len(jobs)))
+		return
+	}
+	for i, l := range out {
+		res := l[strings.IndexByte(l, '\t')+1:]
+		switch {
+		case res == "OK":
+		case res == "REJECTED":
+			r.fail("frame-not-valid-mqtt", jobs[i].c, "the specification's strict decoder rejects "+trunc(strings.Fields(jobs[i].line)[1]))
+		default:
+			r.fail("frame-carries-other-values", jobs[i].c, trunc(res)+" library="+trunc(strings.Fields(jobs[i].line)[2]))
+		}
+		r.eval("type"+strings.Fields(jobs[i].c)[1], len(jobs[i].c) > 6, jobs[i].c)
+	}
+	r.sample(map[string]string{"case": "H 4 SetPacketID:1 SetReasonString:78", "judge": "spec_decode(frame) accepts and yields the accessor values"})
+}
+
+func readLinesArg(args []string) []string {
+	for i := 0; i+1 < len(args); i++ {
+		if args[i] == "--file" {
+			b, err := os.ReadFile(args[i+1])
+			if err == nil {
+				return strings.Split(strings.TrimRight(string(b), "\n"), "\n")
+			}
+		}
+	}
+	return nil
+}
+
+func oracleC03(r *report, g *G, n int, single string) {
+	check := func(hexFrame, want, self, tag string) {
+		c := "SR " + hexFrame
+		if self == "SELFCHECK-FAILED" {
+			r.fail("spec-selfcheck", c, "the specification decoder does not read back its own encoder")
+			return
+		}
+		f := unhex(hexFrame)
+		o := readOnce(oneChunk(f))
+		key := "valid-frame"
+		if tag == "disc-props" {
+			key = "disconnect-props-0x11-0x1c-0x1f"
+		}
+		if want == "." {
+			want = ""
+		}
+		switch {
+		case o.panic:
+			r.fail(key+"-panic", c, "ReadPacket panicked")
+		case o.kind < 0:
+			if tag == "disc-props" {
+				r.fail(key, c, "rejected: "+o.err)
+			} else {
+				r.fail(key+"-rejected", c, "rejected: "+o.err)
+			}
+		case o.kind != int(f[0]>>4):
+			r.fail(key+"-type", c, fmt.Sprintf("type %d", o.kind))
+		case o.snap != want:
+			r.fail(key+"-misread", c, "frame carries "+trunc(want)+" library reports "+trunc(o.snap))
+		}
+		form := "long"
+		if len(f) <= 5 {
+			form = "short"
+		}
+		r.eval(fmt.Sprintf("type%d-%s", f[0]>>4, form), len(f) > 2, hexFrame)
+	}
+	if single != "" {
+		f := splitWS(single)
+		if len(f) == 2 && f[0] == "SR" {
+			out, err := runModel(nil, "SD "+f[1]+"\n")
+			if err == nil && len(out) == 1 {
+				res := out[0][strings.IndexByte(out[0], '\t')+1:]
+				if strings.HasPrefix(res, "P") {
+					parts := strings.SplitN(res, " ", 2)
+					want := ""
+					if len(parts) == 2 {
+						want = parts[1]
+					}
+					check(f[1], want, "selfcheck-ok", "-")
+				}
+			}
+		}
+		return
+	}
+	// corpus: the nine-byte DISCONNECT with a reason string, and the short forms
+	out, err := runModel([]string{"gen03", strconv.FormatInt(g.r.Int63n(1<<30), 10), strconv.Itoa(n)}, "")
+	if err != nil {
+		r.fail("spec-generator-crashed", "modelrun gen03", fmt.Sprint(err))
+		return
+	}
+	fixed := []string{"V e00781051f00026869 N129;L[] selfcheck-ok disc-props", "V 40020001 N1;N0;S-;L[] selfcheck-ok -",
+		"V 4003000110 N1;N16;S-;L[] selfcheck-ok -", "V e000 N0;L[] selfcheck-ok -", "V e00181 N129;L[] selfcheck-ok -",
+		"V f000 N0;S-;S-;S-;L[] selfcheck-ok -"}
+	for _, l := range append(fixed, out...) {
+		f := strings.Fields(l)
+		if len(f) == 5 && f[0] == "V" {
+			check(f[1], f[2], f[3], f[4])
+		}
+	}
+	r.sample(map[string]string{"frame": "4003000110", "carries": "PUBACK id 1 reason 0x10, short form of length 3"})
+}
+
+func oracleC09(r *report, g *G, n int, single string) {
+	check := func(class, hexFrame string) {
+		c := "R 1 " + hexFrame
+		o := readOnce(oneChunk(unhex(hexFrame)))
+		switch {
+		case o.panic:
+			r.fail("must-reject-panic", c, class)
+		case o.kind >= 0:
+			r.fail("must-reject-accepted:"+class, c, "accepted as "+trunc(o.verdict()))
+		}
+		r.eval(class, true, hexFrame)
+	}
+	if single != "" {
+		return
+	}
+	for _, l := range []string{"cut-1 400100", "cut-4 2003000080", "cut-3 8206000100000561", "cut-5 900c0001091f00036162631f00"} {
+		f := strings.Fields(l)
+		check(f[0], f[1])
+	}
+	out, err := runModel([]string{"gen09", strconv.FormatInt(g.r.Int63n(1<<30), 10), strconv.Itoa(n)}, "")
+	if err != nil {
+		r.fail("spec-generator-crashed", "modelrun gen09", fmt.Sprint(err))
+		return
+	}
+	skipped := 0
+	for _, l := range out {
+		f := strings.Fields(l)
+		if len(f) == 4 && f[0] == "X" {
+			if f[3] != "spec-rejects" {
+				skipped++
+				continue
+			}
+			check(f[1], f[2])
+		}
+	}
+	stat("spec_accepted_variants_skipped", skipped)
+	r.sample(map[string]string{"frame": "2003000080", "class": "cut inside a multi-byte property length", "expect": "error, no packet"})
+}
